@@ -186,6 +186,14 @@ def run(repo, rep, tier):
                 good = [c for c in metas if len(c.args) == 3 and try_const(c.args[2]) == want_loc]
                 ok = bool(good) and cfgmod.must_reach(fn, n, good)
                 detail = ""
+
+                def loops_of(x):
+                    return [id(p) for p in _anc(x) if isinstance(p, (ast.For, ast.While))]
+                same_loop = bool(good) and any(loops_of(c) == loops_of(n) for c in good)
+                if ok and not same_loop:
+                    ok = False
+                    detail = (f"the metadata entry is written outside the loop that creates {idvar}: only the object of the last iteration is listed, "
+                              "earlier archive files are missing from the package metadata")
                 if not metas:
                     detail = f"object {idvar} is created in a new archive file `{path}` but never listed in the package metadata"
                 elif not good:
@@ -212,7 +220,7 @@ def run(repo, rep, tier):
     from ..rowpack import model as rowpack_model
     rp = rowpack_model(repo)
     rri = rp["func"]
-    acc = [x for x in rp["problems"] if any(k in x for k in ("offset store", "runs after", "without a record", "no path of the loop", "scaled by a power", "leaves the loop"))]
+    acc = [x for x in rp["problems"] if any(k in x for k in ("offset store", "runs after", "without a record", "no path of the loop", "scaled by a power", "leaves the loop", "does not return the row record"))]
     rep.ob("C07.R3", rp["loop"], "per emitted record: offset stored, then buffer appended, cursor advanced by its length, cell_count + 1", not acc,
            "" if not acc else "; ".join(acc) + ": offsets, buffer and cell count can disagree (overlapping or out-of-bounds records)", key="C07.R3@row:accounting")
     ini = [x for x in rp["problems"] if any(k in x for k in ("starts a", "cell loop runs over", "not the cell at", "cell_count is"))]
@@ -342,6 +350,19 @@ def _anc(n):
 
 
 VARIANTS = [
+    M("tile-metadata-after-loop", "model.py", """            base_data_store.tiles.tile_size = MAX_TILE_SIZE
+
+            self.add_component_metadata(tile_id, "CalculationEngine", "Tables/Tile-{}")
+
+            tile_idx += 1
+
+""", """            base_data_store.tiles.tile_size = MAX_TILE_SIZE
+
+            tile_idx += 1
+
+        self.add_component_metadata(tile_id, "CalculationEngine", "Tables/Tile-{}")
+""", "C07.R2"),
+    M("empty-rows-not-stored", "model.py", "                tile.rowInfos.append(row_info)\n", "                if row_info.cell_count:\n                    tile.rowInfos.append(row_info)\n", "C07.R4"),
     M("drop-style-table-metadata", "model.py", "        self.add_component_metadata(style_table_id, \"CalculationEngine\", \"Tables/DataList-{}\")\n", "", "C07.R2"),
     M("tile-metadata-wrong-locator", "model.py", 'self.add_component_metadata(tile_id, "CalculationEngine", "Tables/Tile-{}")', 'self.add_component_metadata(tile_id, "CalculationEngine", "Tables/DataList-{}")', "C07.R2"),
     M("id-not-recorded", "containers.py", "        self._objects[PACKAGE_ID].last_object_identifier = self._max_id\n", "", "C07.R1"),
